@@ -23,15 +23,39 @@ func caseGen() *rapid.Generator[Case] {
 		max = 16
 	}
 	sg := gen.ScriptGen(gen.ScriptOpts{
-		Item:     gen.StrItem(gen.TokWidth, 4),
-		MinOps:   1,
-		MaxOps:   max,
-		MaxCells: 5,
-		Creators: []string{"core", "core", "texttable"},
+		Item:        item(),
+		AllowMutate: true,
+		MinOps:      1,
+		MaxOps:      max,
+		MaxCells:    5,
+		Creators:    []string{"core", "core", "texttable"},
 	})
 	dg := gen.DecoGen()
 	return rapid.Custom(func(t *rapid.T) Case {
-		return Case{Script: sg.Draw(t, "script"), Deco: dg.Draw(t, "deco")}
+		c := Case{Script: sg.Draw(t, "script"), Deco: dg.Draw(t, "deco")}
+		if rapid.IntRange(0, 3).Draw(t, "also?") == 0 {
+			c.Also = rapid.SliceOfN(rapid.SampledFrom([]string{"markdown", "markdown!", "csv!", "json", "html!", "texttable", "texttable!", "none!"}), 1, 3).Draw(t, "also")
+		}
+		if rapid.IntRange(0, 2).Draw(t, "align?") == 0 {
+			c.Align = rapid.SliceOfN(rapid.IntRange(0, 3), 1, 6).Draw(t, "align") // the rectangle holds under every alignment
+		}
+		c.Renders = rapid.IntRange(1, 3).Draw(t, "renders")
+		if rapid.IntRange(0, 3).Draw(t, "pre?") == 0 {
+			c.Pre = 1 + rapid.IntRange(0, len(c.Script.Ops)).Draw(t, "pre")
+		}
+		return c
+	})
+}
+
+// item: strings mostly, sometimes a mutable Stringer (no size override) so that mutate+Update steps have an effect
+func item() *rapid.Generator[gen.Item] {
+	str := gen.StrItem(gen.TokWidth, 4)
+	return rapid.Custom(func(t *rapid.T) gen.Item {
+		it := str.Draw(t, "str")
+		if rapid.IntRange(0, 5).Draw(t, "stringer") == 0 {
+			return gen.Item{K: "if", M: gen.MString, S: it.S, P: rapid.Bool().Draw(t, "ptr")}
+		}
+		return it
 	})
 }
 
